@@ -40,6 +40,11 @@ func vc03Mod(x int64) int {
 // routines: generic Go always, AVX2 assembly when the CPU has it (the
 // dispatch in amd64.go reads cpu.X86.HasAVX2 at call time).
 func vc03Backends(f func(name string)) {
+	if vc03PureGo {
+		// -tags purego (or not amd64): the exported methods are the thin wrappers of generic.go
+		f("purego")
+		return
+	}
 	orig := cpu.X86.HasAVX2
 	defer func() { cpu.X86.HasAVX2 = orig }()
 	cpu.X86.HasAVX2 = false
@@ -279,7 +284,7 @@ func TestVC03Pack(t *testing.T) {
 			}
 		}
 		vlib.EvalN(sub, 4096*256)
-		if be == "generic" {
+		if be == "generic" || be == "purego" {
 			vlib.Exhaustive("Poly.Pack: every value in [0,q) at every position; Poly.Unpack: every 12-bit value at every position", int64(vc03Q)*256+4096*256, "each arithmetic back-end (Tangle/Detangle included)")
 		}
 	})
@@ -328,7 +333,7 @@ func TestVC03PolyReduce(t *testing.T) {
 			}
 		}
 		vlib.EvalN(sub, 65536)
-		if be == "generic" {
+		if be == "generic" || be == "purego" {
 			vlib.Exhaustive("Poly.Normalize and Poly.BarrettReduce over all int16 coefficient values", 65536, "each arithmetic back-end")
 		}
 		// Add / Sub without overflow
@@ -569,7 +574,7 @@ func TestVC03NTT(t *testing.T) {
 			}
 		}
 		vlib.EvalN(sub, cnt)
-		if be == "generic" && vlib.Shard == 0 {
+		if (be == "generic" || be == "purego") && vlib.Shard == 0 {
 			vlib.Exhaustive("NTT/MulHat/InvNTT product of every monomial pair X^i * X^j (i,j < 256) with boundary coefficients", 65536, "each arithmetic back-end; all shards together; against the negacyclic rule X^256 = -1")
 		}
 
@@ -601,7 +606,7 @@ func TestVC03NTT(t *testing.T) {
 				vlib.Eval(sub)
 			}
 		}
-		if be == "generic" && vlib.Shard == 0 {
+		if (be == "generic" || be == "purego") && vlib.Shard == 0 {
 			vlib.Exhaustive("NTT and InvNTT of all +-q sign-pattern polynomials (-1)^popcount(i&mask), 256 masks x 2 polarities x 4 magnitude variants", 2048, "each arithmetic back-end; all shards together; worst-case accumulation for the lazy reductions")
 		}
 
@@ -777,8 +782,8 @@ func TestVC03Uniform(t *testing.T) {
 
 func TestVC03BackendDiff(t *testing.T) {
 	defer vlib.Done()
-	if !cpu.X86.HasAVX2 {
-		vlib.Note("C03 white-box: AVX2 not available in this process; generic-vs-AVX2 differential sweep skipped")
+	if vc03PureGo || !cpu.X86.HasAVX2 {
+		vlib.Note("C03 white-box: no AVX2 code in this process (config " + vlib.Config + "); generic-vs-AVX2 differential sweep skipped")
 		t.Skip("no AVX2")
 	}
 	defer func() { cpu.X86.HasAVX2 = true }()
